@@ -372,6 +372,8 @@ class ConvexSpheropolyhedron(Shape3D):
         self._polyhedron.centroid = np.array([0, 0, 0])
         data = self.to_json(["vertices", "radius", "volume"])
         hoomd_dict = _map_dict_keys(data, key_mapping=_hoomd_dict_mapping)
+        # The stored arrays are moved back below: hand out copies of the centred shape.
+        hoomd_dict["vertices"] = self.vertices.copy()
         hoomd_dict["centroid"] = [0, 0, 0]
 
         self._polyhedron.centroid = old_centroid
